@@ -2,6 +2,7 @@ package main
 
 import (
 	"bytes"
+	"context"
 	"encoding/json"
 	"fmt"
 	"os"
@@ -62,7 +63,9 @@ func runSched(worker, scenario string, prefix []int, k int, hb bool) (*schedOut,
 	if !hb {
 		h = "0"
 	}
-	cmd := exec.Command(worker, "-prop", "sched", scenario, choicesString(prefix), strconv.Itoa(k), h)
+	ctx, cancel := context.WithTimeout(context.Background(), 300*time.Second)
+	defer cancel()
+	cmd := exec.CommandContext(ctx, worker, "-prop", "sched", scenario, choicesString(prefix), strconv.Itoa(k), h)
 	cmd.Env = append(goEnv(), "VERIF_DIR="+verifDir, "GOMAXPROCS=1")
 	var stderr bytes.Buffer
 	cmd.Stderr = &stderr
@@ -274,7 +277,9 @@ func exploreAll(worker string, scenarios []string, boundOf func(string) int, bas
 				if !hb {
 					h = "0"
 				}
-				cmd := exec.Command(worker, "-prop", "schedx", scenarios[i], strconv.Itoa(boundOf(scenarios[i])), strconv.Itoa(k), h, bfile)
+				ctx, cancel := context.WithTimeout(context.Background(), 3600*time.Second)
+				cmd := exec.CommandContext(ctx, worker, "-prop", "schedx", scenarios[i], strconv.Itoa(boundOf(scenarios[i])), strconv.Itoa(k), h, bfile)
+				defer cancel()
 				cmd.Env = append(goEnv(), "VERIF_DIR="+verifDir, "GOMAXPROCS=1")
 				var stderr bytes.Buffer
 				cmd.Stderr = &stderr
@@ -518,7 +523,18 @@ func runC12(tier string) int {
 		}
 		return bound
 	}
-	v1, fb1, err := exploreAll(worker, scenarios, boundVar, baseline, k, hb, st, perScenario)
+	cooperative := len(uns) == 0
+	exploreScenarios := scenarios
+	if !cooperative {
+		// the package synchronises through constructs the shims do not model (channels, goroutines,
+		// select, sync.Cond): a thread parked by the cooperative scheduler could block the others for
+		// real. The schedule exploration is skipped (and the run is not exhaustive); the free-running
+		// pass below (real goroutines, race detector, results compared with the baseline) decides.
+		exploreScenarios = nil
+		r.Exhaustive = false
+		r.Extra["schedule_exploration_skipped"] = "unmodelled synchronisation constructs: " + strings.Join(uns, ", ")
+	}
+	v1, fb1, err := exploreAll(worker, exploreScenarios, boundVar, baseline, k, hb, st, perScenario)
 	if err != nil {
 		die("%v", err)
 	}
@@ -537,7 +553,7 @@ func runC12(tier string) int {
 		return bound - 1
 	}
 	perD := map[string]int64{}
-	v2, fb2, err := exploreAll(workerDense, scenarios, boundDense, baseline, 2, hb, stD, perD)
+	v2, fb2, err := exploreAll(workerDense, exploreScenarios, boundDense, baseline, 2, hb, stD, perD)
 	if err != nil {
 		die("%v", err)
 	}
@@ -586,10 +602,18 @@ func runC12(tier string) int {
 	}
 	// supplementary free-running pass under the Go race detector (sampling; reported separately)
 	tRace := time.Now()
-	raceRuns, raceReports, raceNote := racePass(scenarios, thorough, r)
+	if !cooperative && !thorough {
+		raceRepsOverride = 8 // more repetitions: the sampling pass is all there is
+	}
+	raceRuns, raceReports, raceNote := racePass(scenarios, thorough, r, baseline)
 	r.Extra["seconds_race_pass"] = time.Since(tRace).Seconds()
 	r.Evaluations = st.executions + stD.executions
 	r.Distinct = int64(len(st.distinctOutcomes))
+	if !cooperative {
+		// only the free-running pass ran: count its executions, one distinct case per scenario
+		r.Evaluations = int64(raceRuns)
+		r.Distinct = int64(len(scenarios))
+	}
 	r.Rule = fmt.Sprintf("stateless exploration of thread schedules on an instrumented copy of the package (sync/atomic redirected to cooperative shims, a scheduling point before every statement that mentions a package-level variable, first %d dynamic visits per (thread, site) preemptible): for each of %d closed scenarios (2-3 goroutines, forced collisions on cold lazily built tables, shared source, crossed orders, unsupported language) every schedule with at most %d preemptions (one less for three-thread scenarios) is executed, each from a cold package state: executions of one scenario run inside one process whose package-level variables are restored to their initial values, with the deep state fingerprint checked against the untouched process after every restore (fallback: one fresh OS process per execution); every violation is confirmed by replaying its schedule in a fresh OS process. A second pass repeats all scenarios with a scheduling point before EVERY statement of the package (accesses through pointers and local aliases) at one preemption less. Oracle per execution: every call returns what it returns alone in a fresh process; no deadlock; caller buffers and returned values intact; vector-clock happens-before detector over the recorded accesses reports no unordered conflicting pair. distinct_nontrivial = distinct (scenario, vector of results) observed; see interleaved_executions for how many executions really collided", k, len(scenarios), bound)
 	for k2, v := range info {
 		r.Extra[k2] = v
@@ -619,8 +643,14 @@ func runC12(tier string) int {
 	return finish("C12", tier, r, t0)
 }
 
+var raceRepsOverride int
+
 // racePass runs the scenario bodies free-running in a -race build.
-func racePass(scenarios []string, thorough bool, r *Result) (runs, reports int, note string) {
+func racePass(scenarios []string, thorough bool, r *Result, baselines ...map[string]string) (runs, reports int, note string) {
+	var baseline map[string]string
+	if len(baselines) > 0 {
+		baseline = baselines[0]
+	}
 	out := scratch + "/worker_race"
 	env := append(goEnv(), "CGO_ENABLED=1")
 	args := []string{"build", "-race", "-tags", "verif", "-overlay", writeOverlay(), "-o", out}
@@ -634,6 +664,9 @@ func racePass(scenarios []string, thorough bool, r *Result) (runs, reports int, 
 	reps := 2
 	if thorough {
 		reps = 30
+	}
+	if raceRepsOverride > 0 {
+		reps = raceRepsOverride
 	}
 	type job struct {
 		sc  string
@@ -658,13 +691,48 @@ func racePass(scenarios []string, thorough bool, r *Result) (runs, reports int, 
 		go func() {
 			defer wg.Done()
 			for j := range ch {
-				cmd := exec.Command(out, "-prop", "race", j.sc, strconv.Itoa(j.rep))
+				ctx, cancel := context.WithTimeout(context.Background(), 300*time.Second)
+				cmd := exec.CommandContext(ctx, out, "-prop", "race", j.sc, strconv.Itoa(j.rep))
 				cmd.Env = append(os.Environ(), "VERIF_DIR="+verifDir, "GORACE=halt_on_error=1 exitcode=66", "GOMAXPROCS=3")
-				var stderr bytes.Buffer
+				var stderr, stdout bytes.Buffer
 				cmd.Stderr = &stderr
+				cmd.Stdout = &stdout
 				err := cmd.Run()
+				timedOut := ctx.Err() != nil
+				cancel()
 				mu.Lock()
 				runs++
+				if timedOut {
+					if !seen["hang:"+j.sc] && len(r.Violations) < 40 {
+						seen["hang:"+j.sc] = true
+						r.ViolationCount++
+						r.Violations = append(r.Violations, Violation{Key: "hang:" + j.sc,
+							What: fmt.Sprintf("scenario %s free-running on real goroutines did not finish within 300 s (deadlock or livelock)", j.sc),
+							Case: map[string]interface{}{"kind": "race", "scenario": j.sc}})
+					}
+					mu.Unlock()
+					continue
+				}
+				if err == nil && baseline != nil {
+					// results of the free-running execution against the results of the calls run alone
+					var outcomes [][]string
+					if json.Unmarshal(stdout.Bytes(), &outcomes) == nil {
+						for ti, t := range parseScenarioOps(j.sc) {
+							for k, op := range t {
+								if strings.HasPrefix(op, "NS:") || strings.HasPrefix(op, "ND") {
+									continue
+								}
+								if ti < len(outcomes) && k < len(outcomes[ti]) && outcomes[ti][k] != baseline[op] && !seen["result:"+j.sc] && len(r.Violations) < 40 {
+									seen["result:"+j.sc] = true
+									r.ViolationCount++
+									r.Violations = append(r.Violations, Violation{Key: "freerun:" + j.sc,
+										What: fmt.Sprintf("scenario %s free-running on real goroutines from a cold start: thread %d call %s returned %q, alone it returns %q", j.sc, ti, op, clipS(outcomes[ti][k]), clipS(baseline[op])),
+										Case: map[string]interface{}{"kind": "race", "scenario": j.sc}})
+								}
+							}
+						}
+					}
+				}
 				if err != nil && strings.Contains(stderr.String(), "DATA RACE") {
 					reports++
 					if !seen[j.sc] && len(r.Violations) < 40 {
